@@ -37,3 +37,5 @@ for d in sorted(glob.glob(V + "/seeded/C*-m*")):
 allr = {os.path.basename(d): json.load(open(d + "/meta.json")).get("detected_by") for d in sorted(glob.glob(V + "/seeded/C*-m*"))}
 json.dump(allr, open(V + "/seeded/RESULTS.json", "w"), indent=1)
 subprocess.run(["bash", "-c", "cd /verif/harness && GOFLAGS=-mod=mod GOPROXY=off go build -tags verif -o ../.run/vh ."])
+# the regenerated facts of the last seeded tree are stale now: regenerate them from the restored tree
+subprocess.run(["bash", "-c", "cd /verif && for p in $(seq -w 1 20); do .run/extract -repo /repo -prop C$p -out lean/GqlVerif/Generated/C$p.lean >/dev/null 2>&1; done; cd lean && lake build >/dev/null 2>&1"])
